@@ -535,6 +535,7 @@ class Machine:
                 continue
             cond, arms, span = br          # arms: list of (value or ('otherwise', excluded), target)
             depth = len(st.frames)
+            branch_block = fr.block
             ipd = self.cfg(fr.body).ipdom_normal(fr.block)
             sub = (depth, ipd) if ipd is not None else None
             results = []
@@ -559,6 +560,10 @@ class Machine:
                     merged = self.merge(st, cond, arms, ends)
                     if merged is not None:
                         st = merged
+                        # an if-converted branch is not a fork: it does not count towards the unbounded-loop detector
+                        v_ = st.frames[-1].visits
+                        if v_.get(branch_block):
+                            v_[branch_block] -= 1
                         continue
             out = []
             for r in results:
@@ -1187,6 +1192,21 @@ class Machine:
 
     def havoc_mut_args(self, st, name, args):
         for i, a in enumerate(args):
+            if isinstance(a, SliceRef) and a.mut:
+                # unknown callee may overwrite every element of the window
+                idx = sum(1 for e in st.trace if e.name == name)
+                base = get_path(a.base.cell.val, a.base.path)
+                elems = list(base.elems) if hasattr(base, "elems") and base.elems is not None else None
+                if elems is not None:
+                    for k in range(a.start, a.start + a.n):
+                        old = elems[k]
+                        if isinstance(old, Int):
+                            elems[k] = Int(old.w, old.signed, E("out", (name, idx, i, k), old.w))
+                        else:
+                            elems[k] = Opaque(E("out", (name, idx, i, k)))
+                    newv = Arr(elems) if isinstance(base, Arr) else VecV(elems=elems, cap=base.cap)
+                    a.base.cell.val = set_path(a.base.cell.val, a.base.path, newv)
+                continue
             if isinstance(a, Ref) and a.mut:
                 old = get_path(a.cell.val, a.path)
                 idx = sum(1 for e in st.trace if e.name == name)
@@ -1236,6 +1256,8 @@ class Machine:
         nf.dest = (dest_lv.cell, dest_lv.path)
         nf.target = t["target"]
         self.entered.add(path)
+        if path.startswith("__shim::") or self.facts.body(path) is None:
+            nf.gmap["__gargs"] = [self.garg(fr, g) for g in gargs]
         fn = self.facts.fns.get(path)
         if fn and fn.get("generics"):
             names = fn["generics"]
